@@ -60,6 +60,7 @@ type traceOut struct {
 	WriteEvents int64    `json:"writeEvents"`
 	CapHit      bool     `json:"capHit"`
 	Panics      []string `json:"panics,omitempty"`
+	Sites       []uint32 `json:"sites,omitempty"` // statement sites executed by the operation
 }
 
 func ids(b []bool) []int {
@@ -101,20 +102,22 @@ func main() {
 	switch req.Mode {
 	case "roots":
 		sites := make([]string, len(zzrt.SiteTable))
+		funcs := make([]string, len(zzrt.SiteTable))
 		for i, s := range zzrt.SiteTable {
 			sites[i] = s.Pos
+			funcs[i] = s.Func
 		}
 		var opNames []string
 		for _, o := range ops.All() {
 			opNames = append(opNames, o.Name)
 		}
-		enc.Encode(map[string]interface{}{"roots": names, "sites": sites, "ops": opNames})
+		enc.Encode(map[string]interface{}{"roots": names, "sites": sites, "funcs": funcs, "ops": opNames})
 	case "trace":
 		all := ops.All()
 		ops.PrepareFor(all, []int{req.Op})
 		var res string
 		c := zzrt.Run([]func(){func() { res = all[req.Op].Run() }}, zzrt.Config{Trace: true, MaxHashes: 3000, HashEvery: req.HashEvery})
-		enc.Encode(traceOut{Result: res, Accessed: ids(c.Accessed), Changed: ids(c.Changed), Shared: c.SharedStmts, Hashes: c.Hashes, WriteEvents: c.WriteEvents, CapHit: c.CapHit, Panics: c.Panics()})
+		enc.Encode(traceOut{Result: res, Accessed: ids(c.Accessed), Changed: ids(c.Changed), Shared: c.SharedStmts, Hashes: c.Hashes, WriteEvents: c.WriteEvents, CapHit: c.CapHit, Panics: c.Panics(), Sites: zzrt.CoveredSites()})
 	case "runs":
 		all := ops.All()
 		for _, r := range req.Runs {
